@@ -6,7 +6,7 @@ COQ_PROP = "Properties/C20.v"; COQ_DIRS = ["Common", "Own"]
 COQ_MODULE = "Own.Model"; RUN_FN = "run"
 THEOREMS = ["C20_freed_at_most_once", "C20_no_release_after_free", "C20_release_terminates",
             "C20_all_freed_after_root_release", "C20_user_objects_freed_exactly_once",
-            "C20_checker_sound", "C20_timer_cycle_stays_allocated", "C20_survivors_hang_on_timer_cycles",
+            "C20_checker_sound", "C20_supported_set_never_freed",
             "C20_model_verdict_forces_release", "C20_reachable_graphs_wf_partial"]
 QUICK_N = 2500; THOROUGH_N = 120000
 XCHECK_N = 30
@@ -25,8 +25,9 @@ TRUSTED = ["Arc/Rc/Weak counting, Box/Vec drop glue and tokio's task ownership a
            "tokio: every runnable task runs in the executor turn of the event that made it runnable (C06, at most 4 tasks per module here); tasks "
            "finishing in one turn are compared up to order"]
 ASSUMPTIONS = ["at most 6 modules, 3 gates, 8 sends, 4 self messages, 4 tasks per module, 12 links, 6 injections (larger values are clamped by both runners)",
-               "TimerSlot<->TimerQueue: a timer still pending when its module is dropped leaves the slot and its queue allocated (memory only, "
-               "no destructor of a user value is involved); carved out of the theorem by the predicate timer_tag and proved to be exactly that class"]
+               "heap growth is measured by a counting global allocator in implrun own between the 2nd and 3rd execution of the same script "
+               "(the harness releases its own logs first); a leak smaller than one block per execution cannot exist, a one-off lazy "
+               "initialisation inside des or tokio that happens only on the 3rd execution would be a false alarm (none observed)"]
 CLAIM = dict(
     text="Machine-checked (Coq 8.16, axiom-free) for an executable reference-count heap with the ownership schema read off the des struct "
          "definitions (Globals/ModuleTree/ModuleContext/Processor/ProcessingElement/Gate/Channel/Message/NetEvents/tokio runtime/task/TimerSlot/"
@@ -34,23 +35,24 @@ CLAIM = dict(
          "object is freed twice, and on count-consistent heaps no handle is released after the free; (2) the release machine terminates; (3) for "
          "EVERY graph that is count-consistent, typed by the schema and whose connected gates are listed by a module context (boolean checker "
          "proved sound), after the roots (Sim, static module context, static event buffer, event set / remaining events, caller-held refs) are "
-         "released in any order every object other than TimerSlot/TimerQueue is freed, exactly once - by the type-rank argument (all strong edges "
-         "except gate connections descend in (type rank, path length); gate rings are cut by dissolve_paths); in particular every module state, "
-         "processing element, task capture and message; (4) the TimerSlot<->TimerQueue Arc cycle is modelled: such a pair is proved to stay "
-         "allocated, and every survivor is proved to hang on such a cycle (memory only); (5) Refuted: with the pinned schema (a buffered Connection "
-         "holding its own channel, before fix 6ce5d8e) a limit-stopped simulation with a channel backlog leaks the channel and its messages. "
-         "Ownership-graph release is thus proved for all schema-shaped graphs; real Arc/Rc counting and tokio task ownership are NOT modelled - "
-         "the schema is validated against destructor counters on every run: generated simulations (nested module trees, gate chains and rings, "
-         "channels with backlog, tasks blocked on timers/receives, shut-down/restarted/panicked modules, messages in the event set / channel "
-         "queues / returned as remaining events / in the static buffer) are run on the real crate to every kind of stopping point, dropped, and "
-         "compared with the extracted model (drop counts per class, result, remaining events, end time, call log); each simulation is run twice in "
-         "one process and must behave identically. Partial.",
+         "released in any order NO object is allocated any more and every object is in the destructor log exactly once - by the type-rank "
+         "argument (all strong edges except gate connections descend in (type rank, path length); gate rings are cut by dissolve_paths); in "
+         "particular every module state, processing element, task capture and message; (4) conversely a set of objects supporting each other "
+         "through ordinary strong fields is never freed; Refuted for the pinned schema: a buffered Connection holding its own channel (before fix "
+         "6ce5d8e) leaks the channel and its queued messages on a limit stop with backlog, and TimerSlot.queue: Arc<TimerQueue> (before fix 012bc88) "
+         "leaves queue and slot allocated when a timer is pending at drop. Ownership-graph release is thus proved for all schema-shaped graphs; "
+         "real Arc/Rc counting and tokio task ownership are NOT modelled - the schema is validated against destructor counters and a counting "
+         "allocator on every run: generated simulations (nested module trees, gate chains and rings, channels with backlog, tasks blocked on "
+         "timers/receives, shut-down/restarted/panicked modules, messages in the event set / channel queues / returned as remaining events / in "
+         "the static buffer) are run on the real crate to every kind of stopping point, dropped, and compared with the extracted model (drop "
+         "counts per class, result, remaining events, end time, call log, heap growth); each simulation is run three times in one process, must "
+         "behave identically and must not make the live heap grow. Partial.",
     note="Partial: Rust's reference counting, drop glue and tokio are trusted/validated, not proved; graphs reached by the builder and event "
          "operations are checked well-formed at run time by the proved-sound checker (reported in the model's output) rather than proved "
-         "well-formed once and for all. Finding candidate: TimerSlot.queue <-> TimerQueue.pending leaks the queue and its pending slots when a "
-         "module with a pending timer is dropped (no user-visible value involved).",
+         "well-formed once and for all. Two defects were found and repaired: 6ce5d8e (F14) and 012bc88 (timer slot <-> queue cycle, visible "
+         "only to the allocator counters); their witnesses are in corpus/C20 and Refuted/C20.v.",
     technique="Coq invariant proof over a worklist release machine (count = in-degree + pending handles), well-founded type-rank descent, "
-              "supported-set argument for cycles; differential correspondence check with destructor counters",
+              "supported-set argument for cycles; differential correspondence check with destructor counters and a counting allocator",
     design="6/C20")
 
 NS = 1000000000
@@ -304,6 +306,13 @@ def mechanisms(script, out):
         ms.add("task_finished")
     if r["created"][2] > sum(1 for e in r["log"] if e[2] == 3) and stop >= 2:
         ms.add("tasks_pending_at_drop")
+        fin = {}
+        for e in r["log"]:
+            if e[2] == 3:
+                fin[e[1]] = fin.get(e[1], 0) + 1
+        # a module none of whose sleeping tasks has finished although it was started: a timer slot is pending
+        if any(any(t > 0 for t in m["tasks"]) and fin.get(i, 0) == 0 for i, m in enumerate(d["mods"])):
+            ms.add("timer_pending_at_drop")
     handled = sum(1 for e in r["log"] if e[2] == 2)
     if r["created"][3] > handled:
         ms.add("messages_in_flight_at_drop")
